@@ -314,19 +314,103 @@ func (a Float) M__rdivmod__(other Object) (Object, Object, error) {
 	return NotImplemented, None, nil
 }
 
+// floatIsOddInteger returns whether x is an odd integer
+func floatIsOddInteger(x float64) bool {
+	return math.Mod(math.Abs(x), 2) == 1
+}
+
+// floatPow returns a ** b
+//
+// This is float_pow from CPython which sorts out the special cases
+// itself rather than relying on the platform's pow
+func floatPow(a, b Float) (Object, error) {
+	iv, iw := float64(a), float64(b)
+	switch {
+	case iw == 0: // v**0 is 1, even 0**0 and nan**0
+		return Float(1), nil
+	case math.IsNaN(iv): // nan**w = nan, unless w == 0
+		return a, nil
+	case math.IsNaN(iw): // v**nan = nan, unless v == 1; 1**nan = 1
+		if iv == 1 {
+			return Float(1), nil
+		}
+		return b, nil
+	case math.IsInf(iw, 0):
+		// v**inf is: 0.0 if abs(v) < 1; 1.0 if abs(v) == 1; inf if abs(v) > 1
+		// v**-inf is: inf if abs(v) < 1; 1.0 if abs(v) == 1; 0.0 if abs(v) > 1
+		iv = math.Abs(iv)
+		if iv == 1 {
+			return Float(1), nil
+		} else if (iw > 0) == (iv > 1) {
+			return Float(math.Inf(1)), nil
+		}
+		return Float(0), nil
+	case math.IsInf(iv, 0):
+		// (+-inf)**w is: inf for w positive, 0 for w negative;
+		// with the sign of v if w is an odd integer
+		odd := floatIsOddInteger(iw)
+		switch {
+		case iw > 0 && odd:
+			return a, nil
+		case iw > 0:
+			return Float(math.Inf(1)), nil
+		case odd:
+			return Float(math.Copysign(0, iv)), nil
+		}
+		return Float(0), nil
+	case iv == 0:
+		// 0**w is: 0 for w positive and an error if w is negative
+		if iw < 0 {
+			return nil, ExceptionNewf(ZeroDivisionError, "0.0 cannot be raised to a negative power")
+		}
+		// use correct sign if iw is odd
+		if floatIsOddInteger(iw) {
+			return a, nil
+		}
+		return Float(0), nil
+	}
+	negateResult := false
+	if iv < 0 {
+		if iw != math.Floor(iw) {
+			// Negative numbers raised to fractional powers become complex
+			return Complex(complex(iv, 0)).M__pow__(Complex(complex(iw, 0)), None)
+		}
+		// iw is an exact integer: use the absolute value of iv
+		// and negate the result if iw is odd
+		iv = -iv
+		negateResult = floatIsOddInteger(iw)
+	}
+	if iv == 1 { // 1**w is 1, also (-1)**large_integer
+		if negateResult {
+			return Float(-1), nil
+		}
+		return Float(1), nil
+	}
+	// Now iv and iw are finite, iw is nonzero, and iv is positive
+	// and not equal to 1.0
+	ix := math.Pow(iv, iw)
+	if math.IsInf(ix, 0) {
+		return nil, exceptionNew(OverflowError, Tuple{Int(34), String("Numerical result out of range")})
+	}
+	if negateResult {
+		ix = -ix
+	}
+	return Float(ix), nil
+}
+
 func (a Float) M__pow__(other, modulus Object) (Object, error) {
 	if modulus != None {
 		return NotImplemented, nil
 	}
 	if b, ok := convertToFloat(other); ok {
-		return Float(math.Pow(float64(a), float64(b))), nil
+		return floatPow(a, b)
 	}
 	return NotImplemented, nil
 }
 
 func (a Float) M__rpow__(other Object) (Object, error) {
 	if b, ok := convertToFloat(other); ok {
-		return Float(math.Pow(float64(b), float64(a))), nil
+		return floatPow(b, a)
 	}
 	return NotImplemented, nil
 }
